@@ -51,16 +51,17 @@ def run_task(P, task, prop, tier, out):
     hooks["call_models"] = {k: v for k, v in hooks["call_models"].items() if not k.endswith("._checkForCrossReferences")}
     hooks["child_xref_may_raise"] = True
     for mode in ("live", "reloaded"):
-        for variant in ("root", "root-flagged", "memo-other", "memo-self"):
+        for variant in ("root", "root-flagged", "memo-other", "memo-other-flagged", "memo-self"):
             X = Exec(P, hooks)
             st = State()
             selfv = schema.make_instance(st, K, 1, mode=mode)
             o = st.obj(selfv)
-            if variant == "root-flagged":
+            if variant in ("root-flagged", "memo-other-flagged"):
+                # the flag only short-cuts a root call: below a root the node is walked again
                 st.set_obj(selfv, o.with_field("_checkedForCrossReferences", VBool(True)))
             other = st.alloc(Inst("Count", {}), new=False)
             memo = NONE
-            if variant == "memo-other":
+            if variant in ("memo-other", "memo-other-flagged"):
                 memo = st.alloc(CList([other]), new=False)
             if variant == "memo-self":
                 memo = st.alloc(CList([other, selfv]), new=False)
@@ -95,7 +96,7 @@ def run_task(P, task, prop, tier, out):
                 # normal completion
                 fl_set = isinstance(flag1, VBool) and z3.is_true(z3.simplify(flag1.t))
                 goal_rec(out, prop, fi.qualname, "ensures:flag-set-on-completion", p, variant, s, z3.BoolVal(bool(fl_set)), tier)
-                if variant == "memo-other":
+                if variant in ("memo-other", "memo-other-flagged"):
                     mo = s.heap.get(memo.oid)
                     app = isinstance(mo, CList) and len(mo.items) == 2 and mo.items[0] is other and isinstance(mo.items[1], VObj) and mo.items[1].oid == selfv.oid
                     goal_rec(out, prop, fi.qualname, "ensures:self-appended-to-memo", p, variant, s, z3.BoolVal(bool(app)), tier)
@@ -104,21 +105,27 @@ def run_task(P, task, prop, tier, out):
 
 def visits_goals(out, prop, fi, K, p, variant, s, pre, selfv, visits, tier):
     """every fill slot visited exactly once; nothing else visited"""
-    from .loops import invert
     from .sv import CTuple, comp_of
 
     o = pre.obj(selfv)
-    flat = []
+    single, fams = [], []
     for rec in visits:
-        if isinstance(rec[0], str) and rec[0] == "family":
+        if isinstance(rec, tuple) and rec and isinstance(rec[0], str) and rec[0] == "family":
             _, k, desc, cond, sub = rec
             for ref_t in sub:
-                flat.append((k, desc, cond, ref_t))
+                fams.append((k, desc, cond, ref_t))
         else:
-            flat.append((None, None, None, rec))
+            single.append(rec)
+
+    def pred(fm, kk):
+        k, desc, cond, ref_t = fm
+        sub = lambda t: z3.substitute(t, (k, kk))
+        return lambda target: z3.And(desc.guard(kk), sub(cond), sub(ref_t) == target)
+
     for f, kind in specs.CHILDREN.get(K, {}).items():
         s2 = s.fork()
         fv = o.fields.get(f)
+        cands = [z3.IntVal(c) for c in range(0, 6)]
         if kind == "one":
             target, guard = fv.ref, z3.BoolVal(True)
         else:
@@ -129,31 +136,49 @@ def visits_goals(out, prop, fi, K, p, variant, s, pre, selfv, visits, tier):
             if isinstance(comp, CTuple):
                 comp = comp.items[1]
             target, guard = comp.ref, c.dom(key)
-        s2.add(guard)
-        hits = []
-        for k, desc, cond, ref_t in flat:
-            if k is None:
-                hits.append(ref_t == target)
+            if c.ksort == z3.IntSort():
+                cands += [key + cc for cc in range(0, 6)]
             else:
-                kk = invert(ref_t, k, target)
-                if kk is None:
-                    continue
-                s2.add_index(kk)
-                hits.append(z3.And(desc.guard(kk), z3.substitute(cond, (k, kk)), z3.substitute(ref_t, (k, kk)) == target))
-        g = z3.PbEq([(h, 1) for h in hits], 1) if hits else z3.BoolVal(False)
-        goal_rec(out, prop, fi.qualname, f"ensures:slot-visited-once:{f}", p, variant, s2, g, tier)
+                # a dict slot is walked through the dict's enumeration: position of the key (+ the slots listed before)
+                from .builtins_model import dpos
+                from .core import LDict
+
+                for oo in s2.heap.values():
+                    if isinstance(oo, LDict):
+                        cands += [dpos(z3.IntVal(oo.did), key) + cc for cc in range(0, 6)]
+        s2.add(guard)
+        nf = [r == target for r in single]
+        at_least = list(nf)
+        at_most = [z3.Not(z3.And(a, b)) for i, a in enumerate(nf) for b in nf[i + 1 :]]
+        sk = []
+        for fm in fams:
+            ksort = fm[1].ksort
+            ws = [w for w in cands if w.sort() == ksort] if ksort == z3.IntSort() else []
+            if ksort != z3.IntSort() and kind != "one":
+                ws = [key] if key.sort() == ksort else []
+            at_least += [pred(fm, w)(target) for w in ws]
+            k1, k2 = s2.fresh("sk.v1", ksort), s2.fresh("sk.v2", ksort)
+            s2.add_index(k1)
+            s2.add_index(k2)
+            at_most.append(z3.Implies(z3.And(pred(fm, k1)(target), pred(fm, k2)(target)), k1 == k2))
+            at_most += [z3.Not(z3.And(h, pred(fm, k1)(target))) for h in nf]
+            sk.append((fm, k1))
+        for i, (fa, ka) in enumerate(sk):
+            for fb, kb in sk[i + 1 :]:
+                at_most.append(z3.Not(z3.And(pred(fa, ka)(target), pred(fb, kb)(target))))
+        g = z3.And(z3.Or(at_least) if at_least else z3.BoolVal(False), *at_most)
+        goal_rec(out, prop, fi.qualname, f"ensures:slot-visited-once:{f}", p, variant, s2, g, tier, extra_index=cands)
     # nothing but fill slots: each visit is a slot of this node (not the template)
     tv = o.fields.get("value")
     s3 = s.fork()
     gs = []
-    for k, desc, cond, ref_t in flat:
-        own = z3.And(core.Ref.is_Old(ref_t), core.Ref.owner(ref_t) == 1)
-        nt = ref_t != tv.ref if isinstance(tv, VChild) else z3.BoolVal(True)
-        if k is None:
-            gs.append(z3.And(own, nt))
-        else:
-            kw = s3.fresh("sk.visit", desc.ksort)
-            s3.add_index(kw)
-            sub = lambda t: z3.substitute(t, (k, kw))
-            gs.append(z3.Implies(z3.And(desc.guard(kw), sub(cond)), z3.And(sub(own), sub(nt))))
+    own = lambda r: z3.And(core.Ref.is_Old(r), core.Ref.owner(r) == 1)
+    nt = lambda r: (r != tv.ref) if isinstance(tv, VChild) else z3.BoolVal(True)
+    for r in single:
+        gs.append(z3.And(own(r), nt(r)))
+    for k, desc, cond, ref_t in fams:
+        kw = s3.fresh("sk.visit", desc.ksort)
+        s3.add_index(kw)
+        sub = lambda t: z3.substitute(t, (k, kw))
+        gs.append(z3.Implies(z3.And(desc.guard(kw), sub(cond)), z3.And(sub(own(ref_t)), sub(nt(ref_t)))))
     goal_rec(out, prop, fi.qualname, "ensures:only-fill-slots-visited", p, variant, s3, z3.And(gs) if gs else z3.BoolVal(True), tier)
